@@ -15,6 +15,7 @@
 # limitations under the License.
 
 import contextlib
+import copy
 import marshal
 import math
 import types
@@ -401,13 +402,12 @@ class CachedFcn(UserFcn):
 
     @staticmethod
     def _same(x, y):
-        """True if two arguments are the same object or have the same type and equal content.
+        """True if an argument has the same type and equal content as the remembered copy of an earlier one.
 
-        Records (dicts), sequences and arrays are compared structurally, so that a one-row batch is not mistaken
-        for the row it contains; anything that cannot be compared counts as a new argument.
+        Records (dicts, objects), sequences, arrays and data frames are compared structurally, so that a one-row batch
+        is not mistaken for the row it contains and a record or buffer that was overwritten in place is not mistaken
+        for its earlier content; anything that cannot be compared counts as a new argument.
         """
-        if x is y:
-            return True
         if type(x) is not type(y):
             return False
         if isinstance(x, dict):
@@ -415,6 +415,10 @@ class CachedFcn(UserFcn):
         if isinstance(x, (list, tuple)):
             return len(x) == len(y) and all(CachedFcn._same(a, b) for a, b in zip(x, y))
         try:
+            if callable(getattr(x, "equals", None)):  # pandas objects: labels count as well
+                return bool(x.equals(y))
+            if type(x).__eq__ is object.__eq__ and hasattr(x, "__dict__"):  # plain attribute records
+                return CachedFcn._same(vars(x), vars(y))
             return bool(np.array_equal(x, y))
         except Exception:
             return False
@@ -427,12 +431,18 @@ class CachedFcn(UserFcn):
             and set(kwds.keys()) == set(self.lastKwds.keys())
             and all(self._same(kwds[k], self.lastKwds[k]) for k in kwds)
         ):
-            return self.lastReturn
+            return copy.deepcopy(self.lastReturn)
         # call first: if the function raises, the memo must keep describing the last *successful* call
         result = super().__call__(*args, **kwds)
-        self.lastArgs = args
-        self.lastKwds = kwds
-        self.lastReturn = result
+        try:
+            # remember copies: the caller (and fill.numpy itself) may reuse a record or an array as a buffer, and the
+            # result may be a view of the argument
+            self.lastArgs = copy.deepcopy(args)
+            self.lastKwds = copy.deepcopy(kwds)
+            self.lastReturn = copy.deepcopy(result)
+        except Exception:
+            # arguments that cannot be copied cannot be remembered
+            self.__dict__.pop("lastArgs", None)
         return result
 
     def __repr__(self):
